@@ -21,13 +21,15 @@ Count(q, x) == Cardinality({i \in DOMAIN q : q[i] = x})
 \* once: the function is a run-once function;  second: the observed call is the second call of the function
 \* object (with fail: the first call was given the missing input and succeeded, the observed one is not)
 Descs == { [rs |-> rs, nonnil |-> nn, fail |-> f, tnil |-> tn, once |-> o, second |-> sc] :
-             rs \in {q \in Seqs(Kinds, 3) : Count(q, "T1") <= 1 /\ Count(q, "T2") <= 1 /\ Count(q, "cerr") <= 1},
+             rs \in {q \in Seqs(Kinds, 3) : Count(q, "T1") <= 1 /\ Count(q, "T2") <= 1 /\ Count(q, "cerr") <= 1}
+                    \* a marker struct ("st") or a pointer to one ("pst", possibly nil) as the only result: one output, the struct itself
+                    \cup {<<"st">>, <<"st", "err">>, <<"pst">>, <<"pst", "err">>},
              nn \in [1..3 -> BOOLEAN], f \in BOOLEAN, tn \in BOOLEAN, o \in BOOLEAN, sc \in BOOLEAN }
-Canon(d) == /\ \A i \in 1..3 : (i > Len(d.rs) \/ d.rs[i] \in {"T1", "T2"}) => d.nonnil[i]   \* irrelevant flags fixed
+Canon(d) == /\ \A i \in 1..3 : (i > Len(d.rs) \/ d.rs[i] \in {"T1", "T2", "st"}) => d.nonnil[i]   \* irrelevant flags fixed
             /\ d.tnil => \E i \in DOMAIN d.rs : d.rs[i] = "err" /\ d.nonnil[i]
             /\ d.once => d.second
 
-Tok(d, i) == IF d.rs[i] \in {"T1", "T2"} \/ (d.nonnil[i] /\ ~(d.tnil /\ d.rs[i] = "err")) THEN i ELSE 0
+Tok(d, i) == IF d.rs[i] \in {"T1", "T2", "st"} \/ (d.nonnil[i] /\ ~(d.tnil /\ d.rs[i] = "err")) THEN i ELSE 0
 HasErr(d) == Len(d.rs) > 0 /\ d.rs[Len(d.rs)] = "err"
 Expected(d) ==
   IF d.fail THEN [len |-> 0, outs |-> <<>>, errnil |-> FALSE, errtok |-> 0, resolved |-> FALSE]
